@@ -33,6 +33,9 @@ def jobs(tier):
             validate_every=200, sample_every=400),
         Job("no events, 3 jobs", "scenario", dict(BASE, nsrc=1, nev=0, njobs=3, max_mc=1), validate_every=20,
             sample_every=50),
+        Job("1x2 events, 1 job, two jobs from one handler", "scenario",
+            dict(BASE, nsrc=1, nev=2, njobs=1, max_mc=2, job_from_handler=2), split=200, max_paths=400000,
+            validate_every=200, sample_every=400),
     ]
     if tier == "thorough":
         js += [
